@@ -313,6 +313,9 @@ impl C15 {
 pub struct C16 {
     /// per vamm: height of the last block in which a liquidation succeeded
     liq_block: BTreeMap<usize, u64>,
+    /// the monitor's OWN record of the block in which each (vamm, trader) position was last traded by its
+    /// owner (never read from the stored position, whose stamp is part of what is being checked)
+    touched: BTreeMap<(usize, String), u64>,
 }
 
 impl Monitor for C16 {
@@ -321,15 +324,22 @@ impl Monitor for C16 {
     }
     fn begin(&mut self, _w: &World, _s0: &Snap, _r: &mut Report) {
         self.liq_block.clear();
+        self.touched.clear();
     }
     fn post(&mut self, w: &World, st: &Step, r: &mut Report) {
         let Some((sender, msg, _)) = engine_msg(&st.op) else { return };
         let Some(vi) = st.op.engine_vamm().and_then(|a| w.vamm_idx(a)) else { return };
         let h = st.pre.height;
+        // a position record that disappears (whole close, full liquidation) takes its history with it
+        let gone: Vec<(usize, String)> = self.touched.keys().filter(|k| st.post.pos(k.0, &k.1).is_none()).cloned().collect();
         match msg {
             eng::ExecuteMsg::OpenPosition { .. } | eng::ExecuteMsg::ClosePosition { .. } => {
                 let liq_here = self.liq_block.get(&vi) == Some(&h);
-                let touched = st.pre.pos(vi, sender).map(|p| p.block == h).unwrap_or(false);
+                let touched = st.pre.pos(vi, sender).is_some() && self.touched.get(&(vi, sender.to_string())) == Some(&h);
+                let stamp = st.pre.pos(vi, sender).map(|p| p.block == h).unwrap_or(false);
+                if stamp != touched {
+                    r.count("stored-stamp-differs-from-observed-trading");
+                }
                 let restricted = liq_here && touched;
                 let has_pos = st.pre.pos(vi, sender).is_some();
                 let mode_err = st.out.err_text().contains("Only one action allowed");
@@ -370,6 +380,12 @@ impl Monitor for C16 {
                 }
             }
             _ => {}
+        }
+        if st.out.ok && matches!(msg, eng::ExecuteMsg::OpenPosition { .. } | eng::ExecuteMsg::ClosePosition { .. }) && st.post.pos(vi, sender).is_some() {
+            self.touched.insert((vi, sender.to_string()), h);
+        }
+        for k in gone {
+            self.touched.remove(&k);
         }
     }
 }
